@@ -58,7 +58,7 @@ theorem credit_step (ord : List Group → List Group) (vals : List Validator) (s
 def exVals : List Validator := [⟨0, 50, true⟩, ⟨1, 50, true⟩]
 def exState : BState := { BState.init with oracle := ⟨[0, 1], [], none⟩ }
 def exClaim (v recv : Nat) : Msg :=
-  .claim ⟨v, 1, 5, "0x1111111111111111111111111111111111111111", recv, 1000, "usdc", "0x2222222222222222222222222222222222222222", 2⟩
+  .claim ⟨v, 1, 5, "0x1111111111111111111111111111111111111111", recv, 1000, "usdc", "0x2222222222222222222222222222222222222222", 2, 0⟩
 
 /-- non-vacuity: the second of two agreeing claims credits 1000 cusdc to account 4, the first credits nothing -/
 example : (deliver id exVals exState (exClaim 0 4)).1.bank.bal 4 "cusdc" = 0 ∧
